@@ -130,6 +130,14 @@ func checkC14(c *core.Check) {
 		"absence of panics is observed on the explored inputs, not proven (exploration); Go's coverage-guided fuzzer is not used in this build - the byte-level part is seeded random generation near the declared shapes",
 	}
 	thorough := c.Tier == "thorough"
+	if thorough {
+		// "always answers" at the design level: under weak fairness every received request reaches "done" (liveness,
+		// checked without a state constraint)
+		if !pipelineDesign(c, "MC_Pipeline_live.cfg") {
+			return
+		}
+		c.Cov["liveness_checked"] = "MC_Pipeline_live.cfg: (pc = recv) ~> (pc = done) under WF_vars(Next)"
+	}
 	if !pipelineDesign(c, "MC_Pipeline.cfg") {
 		return
 	}
